@@ -3,6 +3,7 @@ import LocustModel.Codec.Rebuild
 import LocustModel.Store.C07Machine
 import LocustModel.Lemmas.C07Decode
 import LocustModel.Lemmas.C07Rebuild
+import LocustModel.Lemmas.C07Present
 import LocustModel.Lemmas.C07Builders
 import LocustModel.Lemmas.C07Machine
 import LocustModel.Lemmas.C07Reenc
@@ -25,6 +26,7 @@ import LocustModel.Lemmas.C07Real
 -/
 namespace LM.C07
 open LM LM.Codec LM.D2 LM.Rebuild LM.C07M
+open LM.Bitmap (isSet)
 
 /-! ## 1. the second decoder agrees with the query path -/
 
@@ -108,6 +110,62 @@ example : ∃ b, pushAll {} [⟨.i64 [1, 2], none⟩, ⟨.i64 [0, 4, 0], some [2
   obtain ⟨b, h1, _, h3⟩ := C07_rebuild_cells .int (by decide) (by decide)
     [⟨.i64 [1, 2], none⟩, ⟨.i64 [0, 4, 0], some [2]⟩, ⟨.null 2, none⟩, ⟨.i64 [7], some [1]⟩] (by decide)
   exact ⟨b, h1, by rw [h3]; decide⟩
+
+/-- **`push_present` for every accumulated length and every stored bitmap length.**  The bitmap of a `ColumnBuffer` is
+    grown on demand (`BitVecMut::set` pushes bytes only up to the last bit it sets), so for `L` accumulated rows the
+    stored vector `p` is any number of bytes up to `ceil(L / 8)` — SHORTER whenever the rows end in NULLs that cover whole
+    bytes (a nullable partition ending in ≥ 8 NULLs, an all-NULL / absent partition, `init_present` of an `Empty` buffer);
+    missing bytes read as NULL.  `BmWF L p` is that representation invariant: bytes, at most `ceil(L / 8)` of them, no bit at
+    or beyond `L`.  For ALL `L` (multiple of 8 or not), ALL such `p`, ALL supplied null maps (or none) and counts,
+    `push_present` keeps the invariant for `L + n` rows, leaves every earlier row as it was, and row `L + j` is present
+    iff the supplied map says so (iff always, without a map): bits are addressed by row number, never by where the byte
+    vector happens to end.  Without a bitmap and without a supplied map none is created. -/
+theorem C07_push_present_any_bitmap_length (present newp : Option (List Nat)) (L n : Nat)
+    (hwf : ∀ p, present = some p → BmWF L p) :
+    match Rebuild.pushPresent present newp L n with
+    | none => present = none ∧ newp = none
+    | some q =>
+      BmWF (L + n) q ∧
+      (∀ j, j < L → isSet q j = match present with | some p => isSet p j | none => true) ∧
+      (∀ j, j < n → isSet q (L + j) = newBit newp j) :=
+  pushPresent_bmwf present newp L n hwf
+
+/-- non-vacuity, exactly the shape on which an "append the map when the length is byte aligned" shortcut goes wrong:
+    16 rows = 8 values then 8 NULLs are stored as ONE byte `[0xff]` (< 16 / 8 bytes); appending 8 rows `NULL, 7 values`
+    (map `[0xfe]`) at the aligned length 16 must give `[0xff, 0x00, 0xfe]` — the new map lands in byte 2, not at the end
+    of the vector (`[0xff, 0xfe]` would un-NULL rows 9..15 and NULL rows 17..23). -/
+example : BmWF 16 [255] ∧ [255].length < 16 / 8 ∧ Rebuild.pushPresent (some [255]) (some [254]) 16 8 = some [255, 0, 254] ∧
+    BmWF 24 [255, 0, 254] ∧ (∀ j, j < 8 → isSet [255, 0, 254] (16 + j) = isSet [254] j) := by
+  have hwf : BmWF 16 [255] := BmWF.of_short (by unfold Bitmap.Bytes; decide) (by decide)
+  have h := C07_push_present_any_bitmap_length (some [255]) (some [254]) 16 8 (fun p hp => by cases hp; exact hwf)
+  have e : Rebuild.pushPresent (some [255]) (some [254]) 16 8 = some [255, 0, 254] := by decide
+  rw [e] at h
+  exact ⟨hwf, by decide, e, h.1, h.2.2⟩
+
+/-- **the bitmap of every rebuilt buffer is well formed.**  Whatever sequence of decoded values the compaction loop pushes
+    into a fresh `ColumnBuffer` (dense, nullable with null maps of any byte length, all-NULL / absent, any lengths, any
+    types): if the buffer ends up with a bitmap, that bitmap satisfies the representation invariant for the buffer's
+    row count — bytes, never longer than `ceil(length / 8)`, no bit at or beyond `length`.  This is the invariant
+    `C07_push_present_any_bitmap_length` needs at every push, so its hypothesis holds along every compaction. -/
+theorem C07_rebuild_bitmap_wf (vs : List SVal) (b : Buf) (h : pushAll {} vs = .ok b) :
+    ∀ p, b.present = some p → BmWF b.length p :=
+  pushAll_pwf vs {} pwf_default b h
+
+/-- non-vacuity: the seeded shape end to end on the buffer — a nullable partition of 16 rows ending in 8 NULLs (its bitmap
+    is one byte), then a nullable partition of 8 rows starting with a NULL: 24 rows, bitmap `[0xff, 0, 0xfe]`, every
+    NULL where it was. -/
+example : ∃ b1 b, pushAll {} [⟨.i64 [100, 101, 102, 103, 104, 105, 106, 107, 0, 0, 0, 0, 0, 0, 0, 0], some [255]⟩] = .ok b1 ∧
+    b1.length = 16 ∧ b1.present = some [255] ∧
+    pushAll {} [⟨.i64 [100, 101, 102, 103, 104, 105, 106, 107, 0, 0, 0, 0, 0, 0, 0, 0], some [255]⟩,
+                ⟨.i64 [0, 201, 202, 203, 204, 205, 206, 207], some [254]⟩] = .ok b ∧
+    b.length = 24 ∧ b.present = some [255, 0, 254] ∧ BmWF 24 [255, 0, 254] ∧
+    b.cells = [.int 100, .int 101, .int 102, .int 103, .int 104, .int 105, .int 106, .int 107,
+               .null, .null, .null, .null, .null, .null, .null, .null,
+               .null, .int 201, .int 202, .int 203, .int 204, .int 205, .int 206, .int 207] := by
+  refine ⟨_, _, rfl, rfl, rfl, rfl, rfl, rfl, ?_, by decide⟩
+  exact C07_rebuild_bitmap_wf
+    [⟨.i64 [100, 101, 102, 103, 104, 105, 106, 107, 0, 0, 0, 0, 0, 0, 0, 0], some [255]⟩,
+     ⟨.i64 [0, 201, 202, 203, 204, 205, 206, 207], some [254]⟩] _ rfl _ rfl
 
 /-- **`rebuild_id`.**  The whole column rebuild of `InnerLocustDB::compact` — stored image (or `Column::null` for a
     partition without the column) → free `decode` → `push_*` by decoded type → `assert_eq!(range.len(), builder.len())`
